@@ -199,3 +199,49 @@ func TestLbvcScenarioCursorFetchDuringStore(t *testing.T) {
 		t.Fatalf("LBVC-REPRODUCED (obligation %s): %s", os.Getenv("LBVC_OBLIGATION"), strings.Join(problems, "; "))
 	}
 }
+
+// A cursor must not expire: with a server-wide age limit for streams (the default is 7 days; 1 second here), a cursor
+// stored once, in a segment that has since been rolled, must still be returned after the cursors partition was cleaned.
+func TestLbvcScenarioCursorRetention(t *testing.T) {
+	defer cleanupStorage(t)
+	cfg := getTestConfig("a", true, 5050)
+	cfg.CursorsStream.Partitions = 1
+	cfg.Streams.RetentionMaxAge = time.Second
+	cfg.Streams.SegmentMaxBytes = 1
+	s1 := runServerWithConfig(t, cfg)
+	defer s1.Stop()
+	getMetadataLeader(t, 10*time.Second, s1)
+	var p *partition
+	for i := 0; i < 200; i++ {
+		if p = s1.metadata.GetPartition(cursorsStream, 0); p != nil && p.IsLeader() {
+			break
+		}
+		time.Sleep(50 * time.Millisecond)
+	}
+	if p == nil || !p.IsLeader() {
+		t.Skip("cursors partition not available")
+	}
+	s1.cursors.disableCache = true
+	ctx, cancel := context.WithTimeout(context.Background(), 20*time.Second)
+	defer cancel()
+	if st := s1.cursors.SetCursor(ctx, "foo", "old-cursor", 0, 41); st != nil {
+		t.Skipf("setup failed: %v", st.Err())
+	}
+	time.Sleep(1500 * time.Millisecond)
+	// other cursors are stored later (each rolls a segment), then the partition is cleaned as the cleaner loop does
+	for i := 0; i < 3; i++ {
+		if st := s1.cursors.SetCursor(ctx, "foo", fmt.Sprintf("other-%d", i), 0, int64(i)); st != nil {
+			t.Skipf("setup failed: %v", st.Err())
+		}
+	}
+	if err := p.log.Clean(); err != nil {
+		t.Skipf("clean failed: %v", err)
+	}
+	got, st := s1.cursors.GetCursor(ctx, "foo", "old-cursor", 0)
+	if st != nil {
+		t.Fatalf("LBVC-REPRODUCED (obligation %s): SetCursor(old-cursor, 41), %v later a clean of the cursors partition under the server-wide age limit of 1s (default: 7 days): FetchCursor fails: %v", os.Getenv("LBVC_OBLIGATION"), 1500*time.Millisecond, st.Err())
+	}
+	if got != 41 {
+		t.Fatalf("LBVC-REPRODUCED (obligation %s): SetCursor(old-cursor, 41), 1.5s later a clean of the cursors partition under the server-wide age limit of 1s (the default is 7 days): FetchCursor returns %d - the cursor has expired", os.Getenv("LBVC_OBLIGATION"), got)
+	}
+}
